@@ -232,10 +232,13 @@ fn main() {
             let tags = format!("fn=civil era={}", if day < -719_468 { "bce" } else if day < 0 { "pre1970" } else { "post1970" });
             em.case("exact", &tags, &format!("DateTime<Second>({} * 86400): year/month/day and back through NaiveDate", day),
                 || format!("(r16_civil {})", coq_z(day as i128)), || {
-                let d = DateTime::<Second>::new(day * 86_400);
-                let (y, m, dd) = (d.year().unwrap(), d.month().unwrap(), d.day().unwrap());
-                let back = DateTime::<Second>::from(NaiveDate::from_ymd_opt(y, m as u32, dd as u32).unwrap());
-                vec![int(y as i64), int(m as i64), int(dd as i64), int(back.into_i64().div_euclid(86_400))]
+                // guarded: a missing field or a failing conversion is a Panic cell, never a harness abort
+                g(|| {
+                    let d = DateTime::<Second>::new(day * 86_400);
+                    let (y, m, dd) = (d.year().unwrap(), d.month().unwrap(), d.day().unwrap());
+                    let back = DateTime::<Second>::from(NaiveDate::from_ymd_opt(y, m as u32, dd as u32).unwrap());
+                    vec![int(y as i64), int(m as i64), int(dd as i64), int(back.into_i64().div_euclid(86_400))]
+                }, |v| v)
             });
         }
         // (y, m, d) -> day number -> (y, m, d); invalid dates must be invalid in both
@@ -254,11 +257,11 @@ fn main() {
                 || format!("(r16_ymd {} {} {})", coq_z(y as i128), m, d), || {
                 match NaiveDate::from_ymd_opt(y, m, d) {
                     None => vec![Cell::Null],
-                    Some(nd) => {
+                    Some(nd) => g(|| {
                         let dt = DateTime::<Second>::from(nd);
                         vec![int(dt.into_i64().div_euclid(86_400)), int(dt.year().unwrap() as i64),
                              int(dt.month().unwrap() as i64), int(dt.day().unwrap() as i64)]
-                    }
+                    }, |v| v),
                 }
             });
         }
@@ -334,10 +337,12 @@ fn main() {
         for v in [NAT, 0, 1, -1, i64::MAX, NAT + 1] {
             em.case("exact", &format!("fn=tdfrom nat={}", v == NAT), &format!("TimeDelta::from({}i64)", v),
                 || format!("(r_tdfrom {})", coq_z(v as i128)), || {
-                let a = TimeDelta::from(v);
-                let b = TimeDelta::from(if v == NAT { None } else { Some(v) });
-                assert!(a == b);
-                td_cells(&a)
+                gtd(|| {
+                    let a = TimeDelta::from(v);
+                    let b = TimeDelta::from(if v == NAT { None } else { Some(v) });
+                    assert!(a == b);
+                    a
+                })
             });
         }
         // Time +- TimeDelta with NaT on either side
